@@ -47,6 +47,8 @@ def parseSeq : Nat → List String → Option (Prog × List String)
               else if head == "p4" then some (.lp 4 body k, rest2)
               else if l == "a" then some (.asn1 (tagOf t) body k, rest2)
               else if l == "oa" then some (.optAsn1 (tagOf t) body k, rest2)
+              else if head == "v" then some (.value body false k, rest2)
+              else if head == "vf" then some (.value body true k, rest2)
               else none
         else
           match parseSeq fuel rest with
@@ -70,6 +72,10 @@ def parseSeq : Nat → List String → Option (Prog × List String)
             | "s", [a] => mk ((ofHex a).map (fun v => .octets v k))
             | "bs", [a] => mk ((ofHex a).map (fun v => .bitstr v k))
             | "z", [] => mk (some (.null k))
+            | "se", [] => mk (some (.setErr k))
+            | "sk", [a] => mk ((ofHex a).map (fun v => .alt (.skip v) k))
+            | "cp", [a] => mk ((ofHex a).map (fun v => .alt (.copy v) k))
+            | "bb", [a] => mk ((ofHex a).map (fun v => .alt (.bitsBytes v) k))
             | "ob", [a, d] => mk (match parseBool a, parseBool d with
                 | some v, some dv => some (.optBool v dv k) | _, _ => none)
             | "nb", [d] => mk ((parseBool d).map (fun dv => .noBool dv k))
@@ -99,6 +105,16 @@ def parseSeq : Nat → List String → Option (Prog × List String)
                  | [a] => mk ((ofHex a).map (fun v => .optOctets (tagOf t) v k))
                  | _ => none)
               else if l == "ns" then mk (some (.noOctets (tagOf t) k))
+              else if l == "kn" then mk (some (.alt (.noSkipOpt (tagOf t)) k))
+              else if l == "el" ∨ l == "an" ∨ l == "ae" ∨ l == "ks" ∨ l == "ko" then
+                (match args with
+                 | [a] => mk ((ofHex a).map (fun v =>
+                    if l == "el" then .alt (.elem (tagOf t) v) k
+                    else if l == "an" then .alt (.any (tagOf t) v) k
+                    else if l == "ae" then .alt (.anyElem (tagOf t) v) k
+                    else if l == "ks" then .alt (.skipAsn1 (tagOf t) v) k
+                    else .alt (.skipOpt (tagOf t) v) k))
+                 | _ => none)
               else none
 
 def showVal : Val → String
@@ -112,6 +128,8 @@ def showVal : Val → String
   | .present => "+"
   | .absent => "-"
   | .presentBytes b => "+" ++ toHex b
+  | .skipped => "~"
+  | .tagged t b => toString t.toNat ++ "#" ++ toHex b
   | .time t => if t.off = 0 then toString t.unix else toString t.unix ++ "@" ++ toString t.off
 
 def run (p : Prog) (tail : Bytes) : String :=
@@ -128,6 +146,45 @@ def run (p : Prog) (tail : Bytes) : String :=
       | .err => toHex bs ++ " readfail"
       | .panic => toHex bs ++ " panic"
 
+/-- builder-only programs (`c21 bw …`): tokens `b:HEX`, `uw:N`, `se`, `p1[`…`p4[`, `aTAG[`, `]`. -/
+def parseB : Nat → List String → Option (BProg × List String)
+  | _, [] => some (.done, [])
+  | 0, _ :: _ => none
+  | fuel + 1, tok :: rest =>
+    if tok == "]" then some (.done, rest)
+    else if tok.endsWith "[" then
+      let head := (tok.dropEnd 1).toString
+      match parseB fuel rest with
+      | none => none
+      | some (body, rest1) =>
+        match parseB fuel rest1 with
+        | none => none
+        | some (k, rest2) =>
+          let (l, t) := splitTag head
+          if head == "p1" then some (.lp 1 body k, rest2)
+          else if head == "p2" then some (.lp 2 body k, rest2)
+          else if head == "p3" then some (.lp 3 body k, rest2)
+          else if head == "p4" then some (.lp 4 body k, rest2)
+          else if l == "a" then some (.asn1 (tagOf t) body k, rest2)
+          else none
+    else
+      match parseB fuel rest with
+      | none => none
+      | some (k, rest') =>
+        match tok.splitOn ":" with
+        | ["se"] => some (.setErr k, rest')
+        | ["b", a] => (ofHex a).map (fun v => (.add v k, rest'))
+        | ["uw", a] => a.toNat?.map (fun v => (.unwrite v k, rest'))
+        | _ => none
+
+def runB (p : BProg) : String :=
+  let low := bbuildBytes p
+  if low != bspec p [] then "SPEC-MISMATCH"
+  else match low with
+    | .panic => "panic"
+    | .err => "builderr"
+    | .ok bs => toHex bs
+
 def handle (args : List String) : String :=
   match args with
   | ["rw", prog, tail] =>
@@ -135,6 +192,11 @@ def handle (args : List String) : String :=
     (match parseSeq (toks.length + 1) toks, ofHex tail with
      | some (p, _), some t => run p t
      | _, _ => "bad-op")
+  | ["bw", prog] =>
+    let toks := if prog == "-" then [] else prog.splitOn ","
+    (match parseB (toks.length + 1) toks with
+     | some (p, _) => runB p
+     | none => "bad-op")
   | _ => "bad-op"
 
 end ZV.C21
